@@ -109,6 +109,7 @@ def stub_modules():
         arange=J.arange,
         full=J.full,
         max=J.reduce_max,
+        min=J.reduce_min,
         argmax=J.argmax,
         logical_and=J.logical_and,
         logical_or=J.logical_or,
